@@ -34,6 +34,25 @@ pub open spec fn crypto_take<'a>(c: CryptoReader<'a>) -> Take<DynRead<'a>> {
         CryptoReader::Aes { reader: a, .. } => a.g_reader(),
     }
 }
+// the bounded, undecoded view of the archive under an installed reader, whatever decoder stack sits on it
+// (ZipFileReader::into_inner, proved in U8); NoReader has none
+pub open spec fn zfr_take<'a>(z: ZipFileReader<'a>) -> Take<DynRead<'a>> {
+    match z {
+        ZipFileReader::Raw(t) => t,
+        ZipFileReader::Stored(c) => crypto_take(c.inner),
+        ZipFileReader::Deflated(c) => crypto_take(c.inner.g_inner()),
+        ZipFileReader::Bzip2(c) => crypto_take(c.inner.g_inner()),
+        ZipFileReader::Zstd(c) => crypto_take(c.inner.g_inner().g_inner()),
+        ZipFileReader::NoReader => arbitrary(),
+    }
+}
+// the undecoded view of an open entry: under the installed reader, or (none installed yet) under the crypto reader
+pub open spec fn zf_raw_take<'a>(z: ZipFile<'a>) -> Take<DynRead<'a>> {
+    match z.reader {
+        ZipFileReader::NoReader => crypto_take(z.crypto_reader.unwrap()),
+        other => zfr_take(other),
+    }
+}
 pub open spec fn is_ae2(c: CryptoReader) -> bool { c matches CryptoReader::Aes { vendor_version: AesVendorVersion::Ae2, .. } }
 pub open spec fn decodable(m: CompressionMethod) -> bool { m is Stored || m is Deflated || m is Bzip2 || m is Zstd }
 // representation invariant of an open entry: until the decoder stack is built, the crypto reader is there
